@@ -15,6 +15,11 @@
          - Fits/Decode: a document that supplies exactly one value of exactly the
                     declared kind for every field (keys compared without case) loads,
                     and the loaded value holds the document's values;
+         - map keys: the keys of a map[string]T are data chosen by the user; whatever they
+                    spell (a field key of the element or of an enclosing struct included)
+                    they are kept exactly as written (Norm and Decode never touch them);
+         - Formats: a document is loaded in exactly the formats that can express it (an
+                    integer above maxint64 has no TOML form: JSON and YAML only);
        everything else (wrong kinds, missing / unknown / doubly-spelled keys, numbers
        out of range, numeric strings ...) is left OPEN: the statement only demands that
        every format gives the same answer;
@@ -26,7 +31,7 @@
        package's own JSON / YAML / TOML entry points agree.
 
    Shapes (also the JSON the Go driver logs):
-     type   [k |-> "int"|"i32"|"u8"|"float"|"string"|"bool"]
+     type   [k |-> "int"|"i64"|"i32"|"u8"|"u32"|"u64"|"float"|"string"|"bool"]
             [k |-> "slice"|"map"|"ptr", t |-> type]
             [k |-> "struct", f |-> << [n |-> GoName, tag |-> jsonTagOr"", e |-> embedded?, t |-> type] ... >>]
      doc    [k |-> "num", v |-> decimal string]   [k |-> "str", v |-> string]   [k |-> "bool", b |-> BOOLEAN]
@@ -56,20 +61,30 @@ Upper(s) == UpperTab[LowerTab[s]]
 \* the reference to the environment variable the driver sets, as written in documents
 EnvRef == "${VERIF_C17_VAR}"
 
-\* numbers that occur in documents: which integer kinds hold them, and the decimal
-\* spelling of the float64 they denote exactly ("" = not exactly representable)
+\* numbers that occur in documents: which integer kinds hold them, the decimal spelling
+\* of the float64 they denote exactly ("" = not exactly representable), and whether TOML
+\* can express them (TOML integers are 64-bit signed).  TLC integers are 32-bit: numbers
+\* are decimal STRINGS everywhere (the driver renders the literal); the 64-bit boundary
+\* classes are  minint64 = -9223372036854775808, maxint64 = 9223372036854775807,
+\* over_maxint64 = 9223372036854775808 (= 2^63), maxuint64 = 18446744073709551615
+NumRow(int, i32, u8, u32, u64, fx, toml) ==
+  [int |-> int, i64 |-> int, i32 |-> i32, u8 |-> u8, u32 |-> u32, u64 |-> u64, fx |-> fx, toml |-> toml]
 NumTab ==
-  ( "0"                :> [int |-> TRUE,  i32 |-> TRUE,  u8 |-> TRUE,  fx |-> "0"] @@
-    "7"                :> [int |-> TRUE,  i32 |-> TRUE,  u8 |-> TRUE,  fx |-> "7"] @@
-    "-3"               :> [int |-> TRUE,  i32 |-> TRUE,  u8 |-> FALSE, fx |-> "-3"] @@
-    "300"              :> [int |-> TRUE,  i32 |-> TRUE,  u8 |-> FALSE, fx |-> "300"] @@
-    "3000000000"       :> [int |-> TRUE,  i32 |-> FALSE, u8 |-> FALSE, fx |-> "3000000000"] @@
-    "9007199254740993" :> [int |-> TRUE,  i32 |-> FALSE, u8 |-> FALSE, fx |-> ""] @@
-    "1.5"              :> [int |-> FALSE, i32 |-> FALSE, u8 |-> FALSE, fx |-> "1.5"] @@
-    "-0.25"            :> [int |-> FALSE, i32 |-> FALSE, u8 |-> FALSE, fx |-> "-0.25"] @@
-    "0.1"              :> [int |-> FALSE, i32 |-> FALSE, u8 |-> FALSE, fx |-> "0.1"] )      \* shortest decimal of the float64
+  ( "0"                    :> NumRow(TRUE,  TRUE,  TRUE,  TRUE,  TRUE,  "0", TRUE) @@
+    "7"                    :> NumRow(TRUE,  TRUE,  TRUE,  TRUE,  TRUE,  "7", TRUE) @@
+    "-3"                   :> NumRow(TRUE,  TRUE,  FALSE, FALSE, FALSE, "-3", TRUE) @@
+    "300"                  :> NumRow(TRUE,  TRUE,  FALSE, TRUE,  TRUE,  "300", TRUE) @@
+    "3000000000"           :> NumRow(TRUE,  FALSE, FALSE, TRUE,  TRUE,  "3000000000", TRUE) @@
+    "9007199254740993"     :> NumRow(TRUE,  FALSE, FALSE, FALSE, TRUE,  "", TRUE) @@
+    "-9223372036854775808" :> NumRow(TRUE,  FALSE, FALSE, FALSE, FALSE, "-9223372036854775808", TRUE) @@
+    "9223372036854775807"  :> NumRow(TRUE,  FALSE, FALSE, FALSE, TRUE,  "", TRUE) @@
+    "9223372036854775808"  :> NumRow(FALSE, FALSE, FALSE, FALSE, TRUE,  "9223372036854775808", FALSE) @@
+    "18446744073709551615" :> NumRow(FALSE, FALSE, FALSE, FALSE, TRUE,  "", FALSE) @@
+    "1.5"                  :> NumRow(FALSE, FALSE, FALSE, FALSE, FALSE, "1.5", TRUE) @@
+    "-0.25"                :> NumRow(FALSE, FALSE, FALSE, FALSE, FALSE, "-0.25", TRUE) @@
+    "0.1"                  :> NumRow(FALSE, FALSE, FALSE, FALSE, FALSE, "0.1", TRUE) )      \* shortest decimal of the float64
 
-IntKinds  == {"int", "i32", "u8"}
+IntKinds  == {"int", "i64", "i32", "u8", "u32", "u64"}
 LeafKinds == IntKinds \cup {"float", "string", "bool"}
 
 \* ------------------------------------------------------------------ helpers
@@ -142,6 +157,18 @@ HasRef(D) ==
     [] D.k = "list" -> \E i \in DOMAIN D.l : HasRef(D.l[i])
     [] D.k = "map"  -> \E i \in DOMAIN D.m : HasRef(D.m[i].v)
     [] OTHER -> FALSE
+
+\* ------------------------------------------------------------------ which formats can express a document
+\* JSON and YAML (yaml.v2) express every document of the family; TOML has no integer
+\* above maxint64.  A document is loaded in exactly the formats that can express it (the
+\* statement quantifies over "the same document rendered as JSON, YAML or TOML").
+RECURSIVE TomlOK(_)
+TomlOK(D) ==
+  CASE D.k = "num"  -> NumTab[D.v].toml
+    [] D.k = "list" -> \A i \in DOMAIN D.l : TomlOK(D.l[i])
+    [] D.k = "map"  -> \A i \in DOMAIN D.m : TomlOK(D.m[i].v)
+    [] OTHER -> TRUE
+Formats(D) == IF TomlOK(D) THEN {"json", "yaml", "toml"} ELSE {"json", "yaml"}
 
 \* ------------------------------------------------------------------ Fits / Decode: where the meaning is fixed
 RECURSIVE Fits(_, _)
@@ -248,6 +275,25 @@ BadChain(T, depth) ==
     [] OTHER -> FALSE
 HasBadChain(T) == BadChain(T, 1)
 
+\* a map that lies below another map or a slice (position >= 2 in the chain of containers
+\* of one struct field), whose elements reach a struct S, holding an entry whose
+\* user-chosen key spells (in whatever case) a field of S
+RECURSIVE TargetStruct(_), DeepKeyClashAt(_, _, _)
+TargetStruct(T) == LET U == DerefT(T) IN IF U.k = "struct" THEN U ELSE TargetStruct(U.t)   \* given ReachesStruct(T)
+DeepKeyClashAt(T, D, depth) ==
+  LET U == DerefT(T) IN
+  CASE U.k = "map" /\ D.k = "map" ->
+         \/ /\ depth >= 2 /\ ReachesStruct(U.t)
+            /\ \E i \in DOMAIN D.m : Lower(D.m[i].key) \in LKeys(TargetStruct(U.t))
+         \/ \E i \in DOMAIN D.m : DeepKeyClashAt(U.t, D.m[i].v, depth + 1)
+    [] U.k = "slice" /\ D.k = "list" -> \E i \in DOMAIN D.l : DeepKeyClashAt(U.t, D.l[i], depth + 1)
+    [] U.k = "struct" /\ D.k = "map" ->
+         /\ Unambiguous(U)
+         /\ \E i \in DOMAIN D.m : /\ Lower(D.m[i].key) \in LKeys(U)
+                                   /\ DeepKeyClashAt(FieldType(U, Lower(D.m[i].key)), D.m[i].v, 1)
+    [] OTHER -> FALSE
+DeepKeyClash(T, D) == DeepKeyClashAt(T, D, 1)
+
 \* a map-typed struct field for which the document has no exactly spelled key
 RECURSIVE MissingMapField(_, _)
 MissingMapField(T, D) ==
@@ -295,6 +341,7 @@ Plain(D, om, os) ==
 \* points (UnmarshalJsonBytes / UnmarshalYamlBytes / UnmarshalTomlBytes; exact keys, no
 \* normalisation) agree with each other on the three renderings of D
 MapFormats(D, om, oy, ot) ==
-  /\ Verdict(om) = Verdict(oy) /\ Verdict(om) = Verdict(ot)
+  /\ Verdict(om) = Verdict(oy)
+  /\ IF TomlOK(D) THEN Verdict(om) = Verdict(ot) ELSE ot.v = "na"      \* not expressible: not loaded
   /\ UNCHANGED vars
 =============================================================================
